@@ -15,14 +15,48 @@ RULE = ("cases: (cone with integer rows, list of dyadic-lattice vectors); shapes
         "lattices (thorough), random with duplicates, chains, antichains, facet ties; cone matrix stored as float, "
         "int64, int32 or nested int list (integer dtypes with quarter-lattice fractional data); 'ulp' family (differences "
         "2^-40…2^-50 around ties; integer-row cones scaled by 2^±40); bundled float cones (the order SUBCLASSES ComponentwiseOrder 2…4 — exhaustive small "
-        "lattices —, ConeOrder3D, ConeTheta2DOrder, ice-cream) on {0..3}^m lattices incl. all pairs of {0..3}^3 — compared only where the float path is proved to "
-        "take the exact decisions (all summation orders / FMA replayed in Fractions); non-trivial = at "
+        "lattices —, ConeOrder3D, ConeTheta2DOrder incl. 0.2° and 179.8°, ice-cream incl. 720/1000 facets) on {0..3}^m lattices incl. all pairs of {0..3}^3 — compared only where the float path is "
+        "proved to take the exact decisions (all summation orders / FMA replayed in Fractions); m = 1 cones (also K > m and the cone {0}), cones with anti-parallel rows / empty interior / lineality, exact thin and "
+        "wide 2-D cones (rows < 0.2° from (anti-)parallel); non-trivial = at "
         "least one point is eliminated and at least two kept values or a duplicate value present; "
         "distinct by (cone, vectors)")
 ASSUMPTIONS = ["inputs are dyadic-lattice vectors and integer cone rows so the float path is exact",
                "float cone rows / sub-ulp data: a case is compared only if a - b is exact and every facet test "
                "fl((a-b)·w_n) >= 0 is determined (robust margin, or every evaluation order with and without FMA gives "
                "the exact decision); otherwise it is counted as float_path_inexact_skipped_info"]
+
+
+# Further exact (integer-row) cones, local to C13: one-dimensional objective spaces (m = 1, also K > m and the
+# cone {0}), cones with anti-parallel rows (equality constraints: empty interior, rays, lines, half-spaces) and
+# very thin / very wide 2-D cones whose rows are < 0.2° from anti-parallel resp. parallel.  name: (rows, pointed?)
+EXTRA_CONES = {
+    "max1": ([[1]], True),
+    "max1x3": ([[3]], True),
+    "min1": ([[-1]], True),
+    "min1-two-rows": ([[-2], [-1]], True),
+    "zero1": ([[1], [-1]], True),
+    "max1-two-rows": ([[1], [2]], True),
+    "ray2-diag": ([[1, -1], [-1, 1], [1, 1]], True),
+    "ray2-y": ([[1, 0], [-1, 0], [0, 1]], True),
+    "halfplane2-x": ([[1, 0]], False),
+    "line2-diag": ([[1, -1], [-1, 1]], False),
+    "line2-y": ([[1, 0], [-1, 0]], False),
+    "halfplane-in-plane3": ([[1, 1, 0], [-1, -1, 0], [0, 0, 1]], False),
+    "line3-z": ([[1, 0, 0], [-1, 0, 0], [0, 1, 0], [0, -1, 0]], False),
+    "ray3-z": ([[1, 0, 0], [-1, 0, 0], [0, 1, 0], [0, -1, 0], [0, 0, 1]], True),
+    "thin2-y": ([[1000, 1], [-1000, 1]], True),
+    "thin2-x": ([[1, 1000], [1, -1000]], True),
+    "wide2": ([[1000, 1], [1000, 2]], True),
+    "skew2-big": ([[-1, 1000], [1000, -999]], True),
+}
+M1_CONES = ["max1", "max1x3", "min1", "min1-two-rows", "zero1", "max1-two-rows"]
+DEGENERATE_2D = ["ray2-diag", "ray2-y", "halfplane2-x", "line2-diag", "line2-y"]
+DEGENERATE_3D = ["halfplane-in-plane3", "line3-z", "ray3-z"]
+THIN_WIDE_2D = ["thin2-y", "thin2-x", "wide2", "skew2-big"]
+
+
+def _cone(name):
+    return EXACT_CONES[name] if name in EXACT_CONES else EXTRA_CONES[name]
 
 
 _int_cache = {}
@@ -140,6 +174,17 @@ def _bundled_order(spec):
             o = ConeOrder3D(spec[1])
         elif spec[0] == "theta":
             o = ConeTheta2DOrder(spec[1])
+        elif spec[0] == "ice" and spec[2] > 64:
+            # hundreds of facets: α (one SOCP per facet, irrelevant for the Pareto routines) would take minutes;
+            # stub `get_alpha_vec` in the cone module's namespace for the duration of the constructor only
+            import vopy.ordering_cone as oc
+
+            saved = oc.get_alpha_vec
+            oc.get_alpha_vec = lambda W: np.zeros((W.shape[0], 1))
+            try:
+                o = ConeOrder3DIceCream(spec[1], spec[2])
+            finally:
+                oc.get_alpha_vec = saved
         elif spec[0] == "ice":
             o = ConeOrder3DIceCream(spec[1], spec[2])
         else:
@@ -233,9 +278,103 @@ def gen_round3(ctx):
         yield {"kind": "bundled", "order": spec, "X": X, "shape": "lattice-triple" if n == 3 else "lattice-set"}
 
 
+def _perp_lattice(rng, W, n):
+    """points a·r1 + b·r2 + noise for a 2-D cone with rows w1, w2 (r1 ⟂ w2, r2 ⟂ w1: the extreme rays up to sign):
+    differences land inside, outside, on the facets and in the thin wedges next to them"""
+    (a1, b1), (a2, b2) = W[0], W[1]
+    r1, r2 = [-b2, a2], [-b1, a1]
+    if a1 * r1[0] + b1 * r1[1] < 0:
+        r1 = [-t for t in r1]
+    if a2 * r2[0] + b2 * r2[1] < 0:
+        r2 = [-t for t in r2]
+    X = []
+    for _ in range(n):
+        a, b = rng.randint(-1, 2), rng.randint(-1, 2)
+        nz = [rng.choice([-1, 0, 0, 1]), rng.choice([-1, 0, 0, 1])]
+        if rng.random() < 0.3:
+            nz = [t * rng.choice([1, 100, 499, 500, 501]) for t in nz]
+        X.append([float(a * r1[j] + b * r2[j] + nz[j]) for j in range(2)])
+    return X
+
+
+def gen_round5(ctx):
+    rng = ctx.rng
+    k = 0
+
+    def mine():
+        nonlocal k
+        k += 1
+        return k % ctx.nworkers == ctx.worker
+
+    # ---- m = 1 (single objective): every sequence of length ≤ 3 and every multiset of size 4 over {0, 1, 2, 5/2}
+    vals = [0.0, 1.0, 2.0, 2.5]
+    for cname in M1_CONES:
+        for n in (1, 2, 3):
+            for seq in itertools.product(vals, repeat=n):
+                if mine():
+                    yield {"kind": "sets", "cone": cname, "X": [[v] for v in seq], "shape": "m1-exhaustive"}
+        for combo in itertools.combinations_with_replacement(vals, 4):
+            if mine():
+                X = [[v] for v in combo]
+                rng.shuffle(X)
+                yield {"kind": "sets", "cone": cname, "X": X, "shape": "m1-exhaustive"}
+    # ---- anti-parallel rows / empty interior / lineality, exhaustive small lattices
+    pts2 = [list(map(float, p)) for p in itertools.product(range(3), repeat=2)]
+    pts3 = [list(map(float, p)) for p in itertools.product(range(2), repeat=3)]
+    for cname in DEGENERATE_2D:
+        sizes = (2, 3, 4) if ctx.tier == "thorough" else ((2, 3) if cname in ("ray2-diag", "line2-y") else (2,))
+        for n in sizes:
+            for combo in itertools.combinations_with_replacement(range(len(pts2)), n):
+                if mine():
+                    X = [pts2[i] for i in combo]
+                    if k % 2:
+                        X = X[::-1]
+                    yield {"kind": "sets", "cone": cname, "X": X, "shape": "degenerate-exhaustive"}
+    for cname in DEGENERATE_3D:
+        for n in (2, 3):
+            for combo in itertools.combinations_with_replacement(range(len(pts3)), n):
+                if mine():
+                    X = [pts3[i] for i in combo]
+                    if k % 2:
+                        X = X[::-1]
+                    yield {"kind": "sets", "cone": cname, "X": X, "shape": "degenerate-exhaustive"}
+    for _ in range(ctx.n(150, 8000)):
+        cname = rng.choice(M1_CONES + DEGENERATE_2D + DEGENERATE_3D)
+        m = len(_cone(cname)[0][0])
+        n = rng.randint(2, 9)
+        X = [[core.dyadic(rng, -6, 6, 1) for _ in range(m)] for _ in range(n)]
+        yield {"kind": "sets", "cone": cname, "X": X, "shape": "degenerate-random"}
+    # ---- very thin / very wide exact 2-D cones (rows < 0.2° from anti-parallel / parallel)
+    for _ in range(ctx.n(200, 10000)):
+        cname = rng.choice(THIN_WIDE_2D)
+        yield {"kind": "sets", "cone": cname, "X": _perp_lattice(rng, _cone(cname)[0], rng.randint(2, 7)),
+               "shape": "thin-wide"}
+    # ---- the real ConeTheta2DOrder(0.2) / (179.8): points away from the facets (the float-path gate decides)
+    for _ in range(ctx.n(80, 4000)):
+        n = rng.randint(2, 5)
+        if rng.random() < 0.5:
+            X = []
+            for _ in range(n):
+                a, sc, b = rng.randint(0, 3), rng.choice([1, 512, 1024]), rng.choice([-1, 0, 1])
+                X.append([float(a * sc - b), float(a * sc + b)])
+            yield {"kind": "bundled", "order": ["theta", 0.2], "X": X, "shape": "theta-thin"}
+        else:
+            X = []
+            for _ in range(n):
+                a, c = rng.randint(-2, 2), rng.randint(0, 6)
+                X.append([-a + c / 1024.0, a + c / 1024.0])
+            yield {"kind": "bundled", "order": ["theta", 179.8], "X": X, "shape": "theta-wide"}
+    # ---- ice-cream cones with very many facets (adjacent normals < 0.2° apart)
+    for _ in range(ctx.n(8, 300)):
+        spec = rng.choice([["ice", 60.0, 1000], ["ice", 75.0, 720]])
+        X = [[float(rng.randint(0, 3)) for _ in range(3)] for _ in range(rng.randint(2, 4))]
+        yield {"kind": "bundled", "order": spec, "X": X, "shape": "ice-many-facets"}
+
+
 def gen(ctx):
     rng = ctx.rng
     cones = list(EXACT_CONES)
+    yield from gen_round5(ctx)
     yield from gen_round3(ctx)
     # integer-dtype cone matrices with fractional (quarter-lattice) data: a - b must not be truncated
     for _ in range(ctx.n(150, 9000)):
@@ -320,7 +459,7 @@ def run_case(ctx, case):
     eqv_is_equality = True
     try:
         if kind == "sets":
-            W, pointed = EXACT_CONES[case["cone"]]
+            W, pointed = _cone(case["cone"])
             order = _order_for(W, wtype)
             cname = case["cone"]
         elif kind == "wsets":
